@@ -148,6 +148,28 @@ def run(ctx):
     ctx.ob("R8.2", "force_return|cheat-pipe-after-destroy", bool(ok), where=frt.span,
            detail="cheat pipe is written only after destroy_tokens(cheats)" if ok else "cheat byte written without destroying the cheated token")
 
+    # the top-level self-test puts back exactly what it took out
+    tt = prog.one(r"jobserver::AllJobsDone::test_tokens")
+    tba = BA.of(tt)
+    wr = tba.calls(r"nix::unistd::write")
+    trs = tba.calls(r"jobserver::try_read")
+    ok = False
+    det = "write-back not recognised"
+    if len(wr) == 1 and len(trs) == 2:
+        sl, org, _ = backward_direct(tt, op_local(tt.blocks[wr[0]]["term"]["args"][1]), depth=60)
+        idx = [o for o in org if o[0] == "call" and any("ops::index::Index" in p_ for p_ in callee_paths(o[2]))]
+        if idx:
+            buf = tba.base_local_of_ref(op_local(idx[0][2]["args"][0]))
+            rng = op_local(idx[0][2]["args"][1])
+            rsl, rorg, _ = backward_direct(tt, rng, depth=60)
+            # the range end derives from the try_read whose buffer is the same array, on the token pipe (first read)
+            first = trs[0]
+            same_buf = tba.base_local_of_ref(op_local(tt.blocks[first]["term"]["args"][1])) == buf
+            cnt = taint(tt, seeds={tt.blocks[first]["term"]["dest"]["l"]}, mode="direct", through=re.compile(r"core::option::Option::unwrap_or"))
+            ok = same_buf and bool(rsl & cnt)
+            det = "write(token_fds.1, &buf[..n]) with buf and n from the same try_read of the token pipe" if ok else "the self-test does not write back the bytes it read"
+    ctx.ob("R8.2", "test_tokens|writes-back-what-it-read", ok, where=tt.span, detail=det)
+
     # ---- R8.3
     st = prog.one(r"jobserver::JobServerHandle::start")
     sba = BA.of(st)
